@@ -32,7 +32,8 @@ def cases(ctx):
         yield {'kind': 'nfa', 'X': gen.random_nfa(rng, 5, rng.choice([['a', 'b'], ['a'], ['a', 'b', 'c']])), 'n': 3,
                'scheds': [[rng.randint(0, 5) for _ in range(6)] for _ in range(2)]}
     for i in range(200 * K):
-        yield {'kind': 'pda', 'X': gen.random_pda(rng), 'n': 3, 'scheds': [[rng.randint(0, 5) for _ in range(6)]]}
+        X = gen.push_loop_pda(rng) if i % 10 == 3 else gen.ambiguous_stack_pda(rng) if i % 10 == 7 else gen.random_pda(rng)
+        yield {'kind': 'pda', 'X': X, 'n': 3, 'scheds': [[rng.randint(0, 5) for _ in range(6)]]}
     for i in range(250 * K):
         G = gen.random_cfg(rng, cnf=True, nvars=rng.randint(1, 4), multichar=rng.random() < 0.3)
         yield {'kind': 'cfg', 'X': G, 'n': 4}
@@ -214,6 +215,14 @@ def judge(ctx, c, answers):
                     if got.get('err') == 'fuel':
                         ctx.count('pda:path-search-timeout')
                         timed_out = True
+                        if acc and says and getattr(ctx, '_retry', 0) < 3:
+                            ctx._retry = getattr(ctx, '_retry', 0) + 1
+                            # the acceptance test (same limit) answers at once, so a run exists among finitely many visited
+                            # configurations; the library's worklist search finds it in milliseconds on the unchanged tree
+                            again = call(pda_simulate_word, P, w, limit=10)
+                            if again.get('err') == 'fuel':
+                                ctx.violation('pda-trace-not-produced', {'case': sub, 'problem': 'no run after 5 s and again 10 s for a word '
+                                              'that pda_accepts_word accepts at once', 'accepted': acc})
                         for s in c['scheds']:
                             next(it)
                         continue
